@@ -417,7 +417,7 @@ class Unit:
                     rule, rest = a.split(None, 1)
                     rx, repl = parse_bt(rest)
                     sigsubs.append((rule, rx, repl, False))
-                elif c in ('spec', 'loop', 'loop?', 'before', 'after', 'bodystart'):
+                elif c in ('spec', 'loop', 'loop?', 'before', 'after', 'bodystart', 'cancelall'):
                     cur = (c, a, [])
                     sections.append(cur)
                 else:
@@ -458,6 +458,20 @@ class Unit:
                 if m2:
                     sig_new = sig_new[:pc + 1] + ' -> (%s: %s) %s' % (ret, m2.group(1).strip(), m2.group(2) or '')
                     rec.rewrites.append(dict(rule='RET', what='return value named `%s`' % ret, count=1))
+        if any(k == 'cancelall' for k, _, _ in sections):
+            # R3 applied mechanically: a cancel point before every statement that contains an await
+            bm0 = mask(body_text)
+            starts = set()
+            for mt in re.finditer(r'\.await\b', bm0):
+                j = mt.start()
+                while j > 0 and bm0[j - 1] not in ';{}':
+                    j -= 1
+                while bm0[j] in ' \t\n':
+                    j += 1
+                starts.add(j)
+            for j in sorted(starts, reverse=True):
+                body_text = body_text[:j] + '/*VXCANCEL*/' + body_text[j:]
+            rec.rewrites.append(dict(rule='R3', what='cancel point before every awaiting statement', count=len(starts)))
         body_new = self.apply_rules(body_text, rec, subs)
         # loops / inserts operate on the rewritten body
         inserts = []  # (pos, text_lines, kind, label)
@@ -486,6 +500,9 @@ class Unit:
                     inserts.append((lp[k - 1][1], lines, 'loop%d' % k))
             elif kind == 'bodystart':
                 inserts.append((1, lines, 'bodystart'))
+            elif kind == 'cancelall':
+                for k, mt in enumerate(re.finditer(r'/\*VXCANCEL\*/', body_new)):
+                    inserts.append((mt.start(), [l.replace('{k}', str(k + 1)) for l in lines], 'cancel'))
             else:
                 mm = re.match(r'`([^`]*)`\s*(?:#(\d+))?', a)
                 if not mm:
